@@ -135,3 +135,10 @@ Fixpoint recs_eqb (a b : list (N * (N * N * N))) : bool :=
 
 Definition dout_eqb (a b : dout) : bool :=
   ret_eqb (o_ret a) (o_ret b) && pairs_eqb (o_mem a) (o_mem b) && recs_eqb (o_store a) (o_store b).
+
+(* the harness alphabet: remote events carry store keys; the monitor judges the op they denote *)
+Definition waccept (w : wire) (s : dsst) (o : wop) (r : dout) : dsst + N :=
+  match wtrans w o with
+  | Some d => daccept s d r
+  | None => if negb (nodupb (map snd (o_mem r))) then inr 0 else inl (upd s r)
+  end.
